@@ -27,7 +27,7 @@ def handle (line : String) : String :=
   | "traj" :: _ | "key" :: _ => handleTraj ws
   | "itopsubset" :: _ | "itopjoin" :: _ | "itopnested" :: _ | "topsubset" :: _ | "topjoin" :: _ | "toprows" :: _ | "toppdb" :: _ | "topeqhash" :: _ => handleTopo ws
   | "writer" :: _ | "save" :: _ => handleWriter ws
-  | "sel" :: _ => handleSel ws
+  | "sel" :: _ | "selraw" :: _ => handleSel ws
   | "mic" :: _ => handleMic ws
   | "cell" :: _ | "cellops" :: _ => handleCell ws
   | "nbl" :: _ | "nbs" :: _ | "vox" :: _ => handleNb ws
